@@ -270,8 +270,11 @@ class C06Mon(episodes.Monitor):
 
 @st.composite
 def fill_plans(draw, max_len=80):
-    order = draw(st.sampled_from(["first", "last", "random", "random"]))
+    order = draw(st.sampled_from(["first", "last", "random", "random", "solve"]))
     n = draw(st.integers(2, max_len))
+    if order == "solve":
+        rs = draw(st.lists(st.integers(0, 2**20), min_size=n, max_size=n))
+        return {"style": "fill_solve", "steps": [("solve", r) for r in rs]}
     if order == "first":
         rs = [0] * n
     elif order == "last":
@@ -399,7 +402,8 @@ class HistoryProp:
                 rec = episodes.Recorder(ctx, b, key)
                 mon = self.mon_cls(b, ctx, model)
                 try:
-                    summ = episodes.run_plan(b, rec, plan, mon, stop_at_last=self.stop_at_last)
+                    summ = episodes.run_plan(b, rec, plan, mon, stop_at_last=self.stop_at_last,
+                                             solve_fn=getattr(model, "solve_action", None))
                 except Exception:
                     histprop._reraise_with_case(ctx, item["env"], rec)
                     return
@@ -442,7 +446,7 @@ class Ep:
         return np.asarray([np.asarray(t.reward, np.float64) for t in self.timesteps])
 
 
-def play_to_end(b, key_words, plan=None, actions=None, legal_fn=None, cap=400):
+def play_to_end(b, key_words, plan=None, actions=None, legal_fn=None, cap=400, solve_fn=None):
     """Play a (cycled) plan with legal actions until LAST or `cap` steps -> (Ep, ended, all_legal)."""
     st_, ts = b.reset(envs.make_key(key_words))
     hs, hts = episodes.host((st_, ts))
@@ -456,7 +460,10 @@ def play_to_end(b, key_words, plan=None, actions=None, legal_fn=None, cap=400):
         else:
             mode, r = plan["steps"][i % len(plan["steps"])]
             mask = np.asarray(legal_fn(hs, hts)).astype(bool) if legal_fn is not None else None
-            a = b.pick_action(st_, ts, mode, r + 7919 * (i // len(plan["steps"])), mask=mask)
+            rr = r + 7919 * (i // len(plan["steps"]))
+            a = episodes.solved_action(b, solve_fn, hs, rr) if mode == "solve" else None
+            if a is None:
+                a = b.pick_action(st_, ts, mode, rr, mask=mask)
         st_, ts = b.step(st_, a)
         hs, hts = episodes.host((st_, ts))
         ep.actions.append(np.asarray(a))
@@ -512,7 +519,8 @@ def c08_run_item(prop, item, seed, tier):
         def one(key, plan):
             case = {"env": env, "entry": entry, "key": list(key), "actions": []}
             with ctx.guard(env, case, size=10**6):
-                ep, ended = play_to_end(b, key, plan=plan, legal_fn=legal_fn, cap=cap)
+                ep, ended = play_to_end(b, key, plan=plan, legal_fn=legal_fn, cap=cap,
+                                        solve_fn=getattr(model, "solve_action", None))
                 case["actions"] = [a.tolist() for a in ep.actions]
                 ctx.count("episodes")
                 if not ended:
@@ -527,7 +535,7 @@ def c08_run_item(prop, item, seed, tier):
                 c08_judge(ctx, b, model, ep, case, twin_b)
 
         hyp.drive({"key": episodes.keys(),
-                   "plan": episodes.plans(max_len=40, styles=("legal", "survive", "legal"), min_len=3)},
+                   "plan": episodes.plans(max_len=40, styles=("legal", "survive", "solve", "legal"), min_len=3)},
                   one, seed, item["n"])
     return ctx.result()
 
